@@ -112,15 +112,17 @@ def write_readme():
         res = json.load(open(f"{d}/result.json")) if os.path.exists(f"{d}/result.json") else {}
         own = res.get("quick", {})
         allq = res.get("quick-all", {})
-        own_caught = meta["property"] in own.get("caught_by", []) or meta["property"] in allq.get("caught_by", [])
+        seeds = res.get("quick-seeds", {})
+        own_caught = meta["property"] in own.get("caught_by", []) or meta["property"] in allq.get("caught_by", []) or meta["property"] in seeds.get("caught_by", [])
         sig = ""
-        for r in (own.get("results", {}).get(meta["property"], []) + allq.get("results", {}).get(meta["property"], [])):
+        for r in (seeds.get("results", {}).get(meta["property"], []) + own.get("results", {}).get(meta["property"], []) + allq.get("results", {}).get(meta["property"], [])):
             if r["signatures"]:
                 sig = r["signatures"][0]
                 break
         others = sorted(set(allq.get("caught_by", [])) - {meta["property"]})
         thor = res.get("thorough", {})
-        rows.append((os.path.basename(d), meta["property"], meta.get("needs", ""), "yes" if own_caught else ("thorough only" if meta["property"] in thor.get("caught_by", []) else "NO"), sig, ", ".join(others)))
+        n_seeds = len(seeds.get("caught_at_seeds", []))
+        rows.append((os.path.basename(d), meta["property"], meta.get("needs", ""), (f"yes ({n_seeds} of {len(seeds.get('seeds', []))} seeds)" if seeds else "yes") if own_caught else ("thorough only" if meta["property"] in thor.get("caught_by", []) else "NO"), sig, ", ".join(others)))
     with open(f"{VERIF}/seeded/README.md", "w") as f:
         f.write("# Seeded changes (never committed to /repo)\n\nEach directory holds `patch.diff` (the change to quartiq/minimq), the demonstration written by the independent sub-agent, `meta.json` and `result.json` (written by `tools/seeded.py`).\n\n")
         f.write("| change | breaks | needs to manifest | caught by its own check (quick) | first signature | also caught by |\n|---|---|---|---|---|---|\n")
